@@ -115,7 +115,33 @@ def hps_belief_is_stationary():
     return _prove(hyps, z3.And(E['x'] == E['y'], E['x'] == -kappa - 1))
 
 
+def total_estimate_exact_when_noise_free():
+    """C09: with noise-free answers every contributing measurement's own estimate e_i = <w_i, y_i> equals the record count N
+    (y_i = Q_i x and Q_i^T w_i = 1 give <w_i, Q_i x> = <Q_i^T w_i, x> = <1, x> = N: adjointness of the transpose, linear algebra,
+    assumed), and then the verified formula  max(1, (sum_i e_i / v_i) / (sum_i 1 / v_i))  returns N for N >= 1, whatever the
+    positive variances are.  Sums over a symbolic number of measurements enter through S1 = sum e_i / v_i, S2 = sum 1 / v_i and the
+    sum law  sum (c * a_i) = c * sum a_i."""
+    N, S1, S2, est = z3.Reals('N S1 S2 est')
+    hyps = [N >= 1, S2 > 0, S1 == N * S2,          # every e_i = N, so sum e_i / v_i = N * sum 1 / v_i
+            est * S2 == S1]                         # est = S1 / S2
+    return _prove(hyps, z3.If(est >= 1, est, 1) == N)
+
+
+def blue_instances():
+    """C09 "best linear estimate", INSTANCES n = 2 and n = 3 (the general statement is the Gauss-Markov / Cauchy-Schwarz argument,
+    assumed): among all weights summing to one, the variance  sum w_i^2 v_i  of the combined estimate is at least that of the
+    inverse-variance weights the verified formula uses, 1 / sum(1 / v_i)."""
+    v1, v2, v3, w1, w2 = z3.Reals('v1 v2 v3 w1 w2')
+    r2 = _prove([v1 > 0, v2 > 0], w1 * w1 * v1 + (1 - w1) * (1 - w1) * v2 >= v1 * v2 / (v1 + v2), timeout_ms=20000)
+    w3 = 1 - w1 - w2
+    r3 = _prove([v1 > 0, v2 > 0, v3 > 0],
+                (w1 * w1 * v1 + w2 * w2 * v2 + w3 * w3 * v3) * (v1 * v2 + v1 * v3 + v2 * v3) >= v1 * v2 * v3, timeout_ms=30000)
+    verdict = 'discharged' if r2[0] == 'discharged' and r3[0] == 'discharged' else ('refuted' if 'refuted' in (r2[0], r3[0]) else 'unknown')
+    return verdict, r2[1] + r3[1]
+
+
 LEMMAS = [('concat-distinct', concat_distinct), ('hps-fixed-point-consistency', hps_fixed_point_consistency),
+          ('total-estimate-exact-when-noise-free', total_estimate_exact_when_noise_free), ('inverse-variance-weights-minimise-the-variance[n=2,3]', blue_instances),
           ('hps-belief-is-stationary', hps_belief_is_stationary)]
 
 
